@@ -126,6 +126,12 @@ pub fn malformed_params(variant: u32, uri: &str) -> Option<Value> {
     }
 }
 
+/// JSON-RPC ids may be numbers or strings: script requests whose number is divisible by 3 are sent
+/// (and cancelled) under the string id "s<number>"; probes and the handshake use numbers.
+pub fn string_id(id: i32) -> bool {
+    (100..40_000).contains(&id) && id % 3 == 0
+}
+
 pub fn request(id: i32, method: &str, params: Option<Value>) -> lsp_server::Message {
     lsp_server::Message::Request(lsp_server::Request {
         id: id.into(),
